@@ -12,7 +12,9 @@ META = {
         "engines, rtc on/off, plus self-triggering chains of 3000 links (rtc, both engines; depth must "
         "stay constant) and 40 links (rtc=False; depth must grow). Every send carries a unique token "
         "forwarded to all callbacks, so interleaving, FIFO order, nested return values and the "
-        "outermost result are O(n) scans. distinct_nontrivial = distinct (set of phases from which "
+        "outermost result are O(n) scans. "
+        "20% of the machines in an alternative declaration style. "
+        "distinct_nontrivial = distinct (set of phases from which "
         "nested sends were issued, max queue length bucket, rtc, engine) with >=2 events queued at once."
     ),
     "assumptions": [
